@@ -10,19 +10,24 @@ import time
 import traceback
 
 VERIF = os.path.dirname(os.path.dirname(os.path.abspath(__file__)))
-for p in ("/repo", os.path.join(VERIF, "harness")):
+# The implementation under test is /repo's working tree.  VERIF_REPO redirects to a scratch copy (development aid
+# for mutation experiments only; the registered commands never set it).
+REPO = os.environ.get("VERIF_REPO", "/repo")
+for p in (REPO, os.path.join(VERIF, "harness")):
     if p not in sys.path:
         sys.path.insert(0, p)
 os.environ.setdefault("PYTHONHASHSEED", "0")
 
 
 def load_known():
-    p = os.path.join(VERIF, "known_findings.json")
-    if not os.path.exists(p):
-        return []
-    with open(p) as f:
-        d = json.load(f)
-    return d.get("findings", [])
+    """known_findings.json plus the per-property fragments known_findings.d/*.json (same format)."""
+    import glob
+    out = []
+    for p in [os.path.join(VERIF, "known_findings.json")] + sorted(glob.glob(os.path.join(VERIF, "known_findings.d", "*.json"))):
+        if os.path.exists(p):
+            with open(p) as f:
+                out += json.load(f).get("findings", [])
+    return out
 
 
 class Check:
